@@ -7,6 +7,8 @@ use std::sync::atomic::{AtomicU64, Ordering};
 use vcommon::*;
 
 static NEXT: AtomicU64 = AtomicU64::new(0);
+/// far above what any generated test needs, finite so that a runaway loop ends (in an out-of-gas revert) instead of hanging
+pub const GAS_LIMIT: u64 = 1_000_000_000;
 
 /// Must be called once at start-up, before any thread uses a forc API: `~/.forc` must not be touched.
 pub fn isolate_home() -> PathBuf {
@@ -134,7 +136,12 @@ impl BuiltOnce {
 }
 
 pub fn build(path: &Path, release: bool) -> anyhow::Result<BuiltOnce> {
+    build_with(path, release, vec![])
+}
+
+pub fn build_with(path: &Path, release: bool, experimental: Vec<sway_features::Feature>) -> anyhow::Result<BuiltOnce> {
     let opts = TestOpts {
+        experimental,
         pkg: forc_pkg::PkgOpts { path: Some(path.display().to_string()), offline: true, terse: std::env::var("VP_VERBOSE").is_err(), locked: false, ..Default::default() },
         release,
         build_profile: if release { "release".into() } else { "debug".into() },
@@ -150,7 +157,7 @@ pub fn build(path: &Path, release: bool) -> anyhow::Result<BuiltOnce> {
 
 /// Run built tests; results are per package in build order, tests in the order forc-test reports them.
 pub fn run(built: BuiltTests, runners: TestRunnerCount, filter: Option<forc_test::TestFilter>) -> anyhow::Result<Vec<PkgOutcome>> {
-    let tested = built.run(runners, filter, GasCostsSource::BuiltIn.provide_gas_costs()?, TestGasLimit::Unlimited)?;
+    let tested = built.run(runners, filter, GasCostsSource::BuiltIn.provide_gas_costs()?, TestGasLimit::Limited(GAS_LIMIT))?;
     let pkgs = match tested {
         Tested::Package(p) => vec![*p],
         Tested::Workspace(ps) => ps,
